@@ -148,3 +148,11 @@ M("c02-mean-for-nanmean", "C02", ("merge.py", "return np.nanmean(data.reshape(s)
 M("c02-stale-parent-kept", "C02", ("merge.py", "            try:\n                os.unlink(self._pio.tile_path(pos, makedirs=False))\n            except OSError:\n                pass\n            return", "            return"))
 M("c02-opposite-slices-swapped", "C02", ("merge.py", "SLICES_OPPOSITE_PARITY = [\n    (slice(256, None), slice(None, 256)),\n    (slice(256, None), slice(256, None)),", "SLICES_OPPOSITE_PARITY = [\n    (slice(256, None), slice(256, None)),\n    (slice(256, None), slice(None, 256)),"))
 M("c02-parent-written-masked", "C02", ("pyramid.py", "        if image.is_completely_masked():\n", "        if image.is_completely_masked() and pos.n > 0:\n"))
+
+# ---- C14
+M("c14-min-of-maxima", "C14", ("merge.py", "                max_value = max(max_values)", "                max_value = min(max_values)"))
+M("c14-range-of-merged", "C14", ("merge.py", "        self._pio.write_image(pos, merged, min_value=min_value, max_value=max_value)", "        self._pio.write_image(pos, merged)"))
+M("c14-explicit-range-ignored", "C14", ("image.py", "                if min_value is not None:\n                    header[\"DATAMIN\"] = min_value\n                else:", "                if min_value is not None and False:\n                    header[\"DATAMIN\"] = min_value\n                else:"))
+M("c14-loader-drops-datamin", "C14", ("image.py", "                    min_value=min_value,\n                    max_value=max_value,\n                )\n            return img", "                    min_value=None,\n                    max_value=max_value,\n                )\n            return img"))
+M("c14-builder-swaps", "C14", ("builder.py", '                self.imgset.data_min = top_tile[0].header["DATAMIN"]', '                self.imgset.data_min = float(np.nanmin(top_tile[0].data))'))
+M("c14-first-child-only", "C14", ("merge.py", "            for image in children:\n                if image is not None:\n                    if image.data_min is not None:", "            for image in children[:3]:\n                if image is not None:\n                    if image.data_min is not None:"))
